@@ -424,7 +424,7 @@ func runVerify(repo, verif string, args []string) int {
 		if !ok || all {
 			fmt.Printf("  %-7s %-8s %s [%s %dms] %s | %s\n", map[bool]string{true: "ok", false: "FAIL"}[ok], o.Result, o.Name, o.Backend, o.Ms, o.Src, o.Clause)
 		}
-		if !ok && dump {
+		if (!ok || os.Getenv("GVC_DUMPALL") != "") && dump {
 			f := filepath.Join("/tmp", "gvc_"+sanitize(o.Name)+".smt2")
 			os.WriteFile(f, []byte(o.query(true)), 0o644)
 			fmt.Println("      query:", f)
